@@ -33,7 +33,14 @@ impl Src {
                 (std::fs::read_to_string(&full).unwrap_or_default(), Some(PathBuf::from(full)))
             }
             Src::Text(t) => {
-                let p = if t.contains("include(") { Some(scratch_dir().join("job.mmm")) } else { None };
+                let p = if t.contains("include(") {
+                    Some(scratch_dir().join("job.mmm"))
+                } else if t.contains("verif_macro_file_tag") {
+                    // every such job lives in its own file
+                    Some(scratch_dir().join(format!("macrojob_{:08x}.mmm", fnv(t.as_bytes()) as u32)))
+                } else {
+                    None
+                };
                 (t.clone(), p)
             }
         }
@@ -100,10 +107,39 @@ thread_local! {
     static LAST_PANIC: std::cell::RefCell<Option<String>> = const { std::cell::RefCell::new(None) };
 }
 
+/// Scenario C: a plugin macro that, like the sampler plugin's sample-path resolution, reads the
+/// process environment variable `MIMIUM_CURRENT_MACRO_FILE` which the compiler sets around macro
+/// expansion. It returns a number derived from the path it observes, so a job that sees another
+/// job's file produces another result.
+fn macro_file_plugin() -> Box<dyn mimium_lang::plugin::Plugin> {
+    use mimium_lang::interner::ToSymbol;
+    use mimium_lang::interpreter::Value;
+    use mimium_lang::plugin::{InstantPlugin, MacroInfo};
+    use mimium_lang::types::Type;
+    use mimium_lang::{function, numeric};
+    let f = |_args: &[(Value, mimium_lang::interner::TypeNodeId)]| -> Value {
+        let v = std::env::var_os("MIMIUM_CURRENT_MACRO_FILE")
+            .map(|p| (fnv(p.to_string_lossy().as_bytes()) % 1000) as f64 + 1.0)
+            .unwrap_or(0.0);
+        Value::Number(v)
+    };
+    Box::new(InstantPlugin {
+        macros: vec![MacroInfo::new(
+            "verif_macro_file_tag".to_symbol(),
+            function!(vec![], numeric!()),
+            std::rc::Rc::new(std::cell::RefCell::new(f)),
+        )],
+        extcls: vec![],
+        commonfns: vec![],
+    })
+}
+
 fn run_job(job: &Job) -> JobResult {
     let (src, path) = job.src.load();
     let r = catch_unwind(AssertUnwindSafe(|| {
-        let mut ctx = ExecContext::new(std::iter::empty(), path, Config::default());
+        let plugins: Vec<Box<dyn mimium_lang::plugin::Plugin>> =
+            if src.contains("verif_macro_file_tag") { vec![macro_file_plugin()] } else { vec![] };
+        let mut ctx = ExecContext::new(plugins.into_iter(), path, Config::default());
         match ctx.prepare_machine(&src) {
             Err(errs) => JobResult::Diagnostics(
                 errs.iter()
@@ -393,7 +429,7 @@ const WORDS: [&str; 16] = [
 /// glob imports of two modules exporting the same name, and a neighbour that merely uses the same
 /// spellings as ordinary identifiers.
 fn gen_special(r: &mut Rng) -> String {
-    let which = r.below(6);
+    let which = r.below(7);
     gen_special_of(r, which)
 }
 
@@ -401,6 +437,12 @@ fn gen_special_of(r: &mut Rng, which: u64) -> String {
     let mut w: Vec<&str> = WORDS.to_vec();
     r.shuffle(&mut w);
     match which {
+        // scenario C: a macro that observes the macro-file environment variable
+        6 => format!(
+            "#stage(macro)\nfn tag{m}(){{\n    verif_macro_file_tag() |> lift_f\n}}\n#stage(main)\nfn dsp(){{\n    tag{m}!() + {}\n}}\n",
+            ["0.25", "0.5", "0.75"][r.below(3) as usize],
+            m = w[0]
+        ),
         // staged program whose main-stage `let` has several sibling nested tuple patterns (each
         // sibling gets a generated temporary name during staging translation)
         5 => {
@@ -498,7 +540,7 @@ fn gen_scenario(seed: u64) -> Scenario {
     let identical = r_cfg.chance(1, 4);
     // family: every job is an instance of the same special template (same shape, other constants
     // and names), so all threads go through the same compiler phases at the same time
-    let same_template = if r_cfg.chance(1, 5) { Some(r_cfg.below(6)) } else { None };
+    let same_template = if r_cfg.chance(1, 5) { Some(r_cfg.below(7)) } else { None };
     let mut jobs = vec![];
     for i in 0..k {
         let src = if let Some(t) = same_template {
@@ -620,6 +662,19 @@ fn judge(sc: &Scenario, persist_dir: &str) -> serde_json::Value {
     let mut features = vec![];
     if sc.relocate {
         features.push("relocate-on-intern".to_string());
+    }
+    if let Some((_, detail)) = &v.violation {
+        // which job disagreed with its alone result?
+        if let Some(pos) = detail.find("job ") {
+            let k: String = detail[pos + 4..].chars().take_while(|c| c.is_ascii_digit()).collect();
+            if let Ok(k) = k.parse::<usize>() {
+                if let Some(j) = sc.jobs.get(k) {
+                    if j.src.load().0.contains("verif_macro_file_tag") {
+                        features.push("mismatch-in-macro-file-env-job".to_string());
+                    }
+                }
+            }
+        }
     }
     let mut res = json!({"outcome": outcome, "counters": counters, "cover_key": cover, "nontrivial": sc.jobs.len() >= 2,
         "trace_hash": fnv(format!("{expected:?}").as_bytes()), "features": features});
